@@ -89,24 +89,41 @@ func runTraced(own func(sig string) bool) func(w wl.Workload) common.Result {
 		wf := filepath.Join(work, "w.json")
 		os.WriteFile(wf, b, 0o644)
 		tf := filepath.Join(work, "trace.txt")
-		cmd := exec.Command("strace", "-f", "-y", "-qq", "-s", "0", "-e", straceSet, "-o", tf, tracebin(), wf, dir)
-		var stderr bytes.Buffer
-		cmd.Stderr = &stderr
-		if err := cmd.Run(); err != nil {
-			// the workload itself failed (or strace is unavailable): not a verdict of this property
-			common.Inconclusive("traced workload failed: %v: %s", err, stderr.String())
-		}
-		calls, err := Parse(tf)
-		if err != nil {
-			common.Inconclusive("parsing trace: %v", err)
-		}
-		v, st := Check(calls, dir, w.SegSize)
-		if st.StoreLogsOK == 0 && st.Syscalls < 10 {
-			raw, _ := os.ReadFile(tf)
-			if len(raw) > 1500 {
-				raw = raw[:1500]
+		var calls []Sys
+		var v *Violation
+		var st Stats
+		var lastProblem string
+		for attempt := 0; attempt < 3; attempt++ {
+			os.RemoveAll(dir)
+			os.Mkdir(dir, 0o755)
+			cmd := exec.Command("strace", "-f", "-y", "-qq", "-s", "0", "-e", straceSet, "-o", tf, tracebin(), wf, dir)
+			var stderr bytes.Buffer
+			cmd.Stderr = &stderr
+			if err := cmd.Run(); err != nil {
+				// the workload itself failed (or strace is unavailable): not a verdict of this property
+				lastProblem = fmt.Sprintf("traced workload failed: %v: %s", err, stderr.String())
+				continue
 			}
-			common.Inconclusive("trace is empty: strace produced no usable output (%d syscalls parsed); stderr: %s; trace head: %s", st.Syscalls, stderr.String(), raw)
+			var err error
+			calls, err = Parse(tf)
+			if err != nil {
+				lastProblem = fmt.Sprintf("parsing trace: %v", err)
+				continue
+			}
+			v, st = Check(calls, dir, w.SegSize)
+			if st.StoreLogsOK == 0 && st.Syscalls < 10 {
+				raw, _ := os.ReadFile(tf)
+				if len(raw) > 1500 {
+					raw = raw[:1500]
+				}
+				lastProblem = fmt.Sprintf("trace is empty: strace produced no usable output (%d syscalls parsed); stderr: %s; trace head: %s", st.Syscalls, stderr.String(), raw)
+				continue
+			}
+			lastProblem = ""
+			break
+		}
+		if lastProblem != "" {
+			common.Inconclusive("%s", lastProblem)
 		}
 		res.Sub = 1
 		res.NonTrivial = st.FirstCommitNewSegment && st.Rotation && st.Deletion && st.CommitIntoOpenedFile
